@@ -61,7 +61,20 @@ BackendWhy(b, o, run, ity) ==
            /\ (\E i \in 1..Len(o.v.els) : o.v.els[i].v # o.v.els[1].v) /\ run.acc /\ r.st \in {"ok"} THEN {"sameness_" \o b} ELSE {})
   \cup (IF acc /\ r.st \in {"ok", "fail"} /\ o.class \in {"value", "fail"} /\ LogNorm(o.log) # LogProj(r.log) THEN {"log_" \o b} ELSE {})
 
+\* programs at the limit of the VM's encoding (flag big; not evaluated by the specification): the back ends that ran agree,
+\* and only the two VM loops may have refused
+JudgeBig(rec) ==
+  LET o == rec.obs IN
+  IF "died" \in DOMAIN o THEN {"total"}
+  \* (the interpreter is left out: built from a tree, outside the facade, the harness cannot give it the engine's
+  \*  run-time function table)
+  ELSE LET ran == {b \in Backends \ {"interp"} : o.runs[b].class \in {"value", "fail"}} IN
+       (IF o.runs["closure"].class \notin {"value", "fail"} THEN {"accept_closure"} ELSE {})
+       \cup (IF \E b1, b2 \in ran : o.runs[b1].class # o.runs[b2].class
+                                     \/ (o.runs[b1].class = "value" /\ NormVal(o.runs[b1].v) # NormVal(o.runs[b2].v))
+             THEN {"agree"} ELSE {})
 Judge(rec) ==
+  IF "big" \in DOMAIN rec THEN JudgeBig(rec) ELSE
   LET o == rec.obs
       died == "died" \in DOMAIN o
       run == RunOf(rec)
@@ -83,7 +96,8 @@ Judge(rec) ==
      \cup (IF ~died /\ ~agree THEN {"agree"} ELSE {})
      \cup (IF ~died /\ ~HasCall(rec.e, N_print) /\ ~quiet THEN {"stdout"} ELSE {})
 
-Skip(rec) == LET run == RunOf(rec) IN
+Skip(rec) == IF "big" \in DOMAIN rec THEN "" ELSE
+             LET run == RunOf(rec) IN
              IF run.acc /\ run.r.st = "ood" THEN "ood" ELSE ""
 
 Init == st \in {[c |-> c, l |-> ChunkLo(c, N)] : c \in 1..NChunks}
